@@ -19,7 +19,7 @@ import (
 	"zogverif/zh"
 )
 
-var c20Alphabet = []string{"/", "0", "9", ":", "@", "A", "Z", "[", "`", "a", "z", "{", "~", "\x7f", " ", "!", "é", "Ä", "１", ".", "-"}
+var c20Alphabet = []string{"/", "0", "9", ":", "@", "A", "Z", "[", "`", "a", "z", "{", "~", "\x7f", " ", "!", "é", "Ä", "１", ".", "-", "€", "«", "—"}
 
 // chooseString enumerates every string over alpha with at most maxLen symbols.
 func chooseString(x *mc.X, alpha []string, maxLen int, label string) string {
@@ -646,9 +646,9 @@ func init() {
 		Floor: 100,
 		Bound: func(tier string) string {
 			if tier == "thorough" {
-				return "general strings ≤4 symbols over 21-symbol boundary alphabet; email/url grammar strings ≤7 symbols; uuid: all single and double substitutions, insertions, deletions; numeric n×v over boundary sets of all 5 types; time ±1ns in 2 zones; slices len 0..3"
+				return "general strings ≤4 symbols over 24-symbol boundary alphabet (ASCII class edges, multi-byte letters/digits, non-ASCII punctuation and symbols); email/url grammar strings ≤7 symbols; uuid: all single and double substitutions, insertions, deletions; numeric n×v over boundary sets of all 5 types; time ±1ns in 2 zones; slices len 0..3"
 			}
-			return "general strings ≤3 symbols over 21-symbol boundary alphabet; email/url grammar strings ≤5 symbols; uuid: all single substitutions, insertions, deletions; numeric n×v over boundary sets of all 5 types; time ±1ns in 2 zones; slices len 0..3"
+			return "general strings ≤3 symbols over 24-symbol boundary alphabet (ASCII class edges, multi-byte letters/digits, non-ASCII punctuation and symbols); email/url grammar strings ≤5 symbols; uuid: all single substitutions, insertions, deletions; numeric n×v over boundary sets of all 5 types; time ±1ns in 2 zones; slices len 0..3"
 		},
 		Assumptions: []string{
 			"reference predicates are the documented ones (len() in bytes, Go comparisons, strings.*, ASCII classes, stated grammars); URL reference uses net/url itself (scheme and host non-empty)",
